@@ -11,6 +11,8 @@
 #include "clstepcore/STEPaggregate.h"
 #include "clstepcore/STEPaggrString.h"
 #include "clstepcore/STEPaggrInt.h"
+#include "clstepcore/STEPaggrReal.h"
+#include "clstepcore/read_func.h"
 #include <stdio.h>
 #include <stdlib.h>
 #include <string.h>
@@ -35,6 +37,9 @@ static int verif_snprintf_ld(char *s, size_t cap, const char *fmt, long v)
 #include "sdaistring_extract.inc"
 #include "strnode_extract.inc"
 #include "intnode_extract.inc"
+static int g_wr_calls; static double g_wr_arg;
+std::string WriteReal(SDAI_Real v) { g_wr_calls++; g_wr_arg = v; return std::string("1.5E0"); }   /* contract stub: the REAL token of v */
+#include "realnode_extract.inc"
 #undef sprintf
 #undef snprintf
 #undef private
@@ -83,4 +88,19 @@ extern "C" void h_IntNode_write()
     std::string s2; fill(s2, in_old, in_olen);
     const char *r2 = n->IntNode::asStr(s2);
     if (in_v != S_INT_NULL) __CPROVER_assert(!strcmp(r2, want), "C01 asStr of an INTEGER element is the complete decimal text of its value");
+}
+
+/* C01: a REAL element is written as the REAL token of its value (WriteReal), nothing for the unset sentinel, whatever the buffer held */
+extern "C" void h_RealNode_write()
+{
+    IN(double, in_v); IN_ARR(char, in_old, SN6); IN(unsigned, in_olen);
+    __CPROVER_assume(in_olen <= SN6);
+    for (int i = 0; i < SN6; i++) if ((unsigned)i < in_olen) __CPROVER_assume(in_old[i] != 0);
+    RealNode *n = (RealNode *)malloc(sizeof(RealNode)); n->value = in_v;
+    std::string s; fill(s, in_old, in_olen);
+    g_wr_calls = 0;
+    const char *r = n->RealNode::STEPwrite(s, 0);
+    SDAI_Real z = S_REAL_NULL; int unset = memcmp(&in_v, &z, sizeof z) == 0;
+    if (!unset) __CPROVER_assert(g_wr_calls == 1 && !strcmp(r, "1.5E0") && (g_wr_arg == in_v || in_v != in_v), "C01 a REAL element is written as exactly the REAL token of its own value (zero, negative numbers and infinities are values)");
+    else __CPROVER_assert(g_wr_calls == 0 && r[0] == 0, "the unset real sentinel is written as nothing");
 }
